@@ -270,7 +270,7 @@ func crossProcess(c *lib.Ctx, r *lib.RNG) []lib.OracleFail {
 					return b.String()
 				}
 				fails = append(fails, lib.OracleFail{Class: "order-dependent-decode",
-					What: fmt.Sprintf("%s: in the canonical order (fresh process) = %q, in a fresh process with order seed %d = %q", acts[k].name, outs[0].res[k], o.seed, o.res[k]),
+					What:   fmt.Sprintf("%s: in the canonical order (fresh process) = %q, in a fresh process with order seed %d = %q", acts[k].name, outs[0].res[k], o.seed, o.res[k]),
 					Replay: fmt.Sprintf("two fresh processes, same actions, different order.\n# order A (canonical) up to the action:\n%s# order B (seed %d) up to the action:\n%s", nameOrder(0), o.seed, nameOrder(o.seed))})
 			}
 		}
